@@ -436,6 +436,37 @@ Proof.
     rewrite Nat.sub_0_r. reflexivity.
 Qed.
 
+(** * The hook on the VALUE: what the emitted decoder returns is the decoded value with the hook
+    applied exactly once (not at all for an item without [init]); same through [deserialize_variant] *)
+Definition hooked (hook : string -> val -> val) (it : item) (v : val) : val :=
+  match init_of it with Some h => hook h v | None => v end.
+
+Lemma with_init_value hook it r v rest n :
+  with_init hook it r = (Ok (v, rest), n) ->
+  exists v0, r = Ok (v0, rest) /\ v = hooked hook it v0.
+Proof.
+  unfold with_init, hooked. destruct r as [[v0 rest0]|k m|w]; try discriminate.
+  destruct (init_of it); intro H; inversion H; subst; eexists; split; reflexivity.
+Qed.
+
+Theorem init_on_value c hook it t bs v rest n :
+  (forall vs0, it_body it = BEnum vs0 -> exists name vn tags vs, t = TSum (KEnum name vn tags) vs) ->
+  derived_deserialize_reader c hook it t bs = (Ok (v, rest), n) ->
+  exists v0, dec_slice c t bs = Ok (v0, rest) /\ v = hooked hook it v0.
+Proof.
+  intros SH. unfold derived_deserialize_reader, struct_deserialize_reader.
+  destruct (it_body it) as [fs|vs0|fs] eqn:B; try apply with_init_value.
+  destruct (SH vs0 eq_refl) as [name [vn [tags [vs ->]]]].
+  rewrite enum_deserialize_reader_dec. apply with_init_value.
+Qed.
+
+Theorem variant_on_value c hook it name vn tags vs b r v rest n :
+  deserialize_variant c hook it (TSum (KEnum name vn tags) vs) r (b2n b) = (Ok (v, rest), n) ->
+  exists v0, dec_slice c (TSum (KEnum name vn tags) vs) (b :: r) = Ok (v0, rest) /\ v = hooked hook it v0.
+Proof.
+  rewrite deserialize_variant_tag, enum_deserialize_reader_dec. apply with_init_value.
+Qed.
+
 (** * The full-strength enum statement is false (F12): [#[borsh(use_discriminant = true)] enum E { A = !0 }].
     rustc gives [A] the discriminant [-1] ([!0] typed [isize]); the derived code writes the
     tag [255] ([!0] typed [u8]). *)
